@@ -1289,8 +1289,9 @@ class NumberOrderedForm(Operator):
                 partial = partial._multiply_op(i, power)
             # Now multiply by the number part
             partial = partial._multiply_expr(coeff)
-            # Finally, multiply by annihilation operators
-            for i, power in enumerate(powers):
+            # Finally, multiply by annihilation operators. A term denotes its annihilation
+            # operators in descending order (see `as_expr`), so apply them in that order.
+            for i, power in reversed(list(enumerate(powers))):
                 if not power > 0:
                     continue
                 partial = partial._multiply_op(i, power)
